@@ -9,6 +9,8 @@
 //	                     parameter aliases `arg`. The property speaks about the channels Join was CALLED with, so the
 //	                     foreign values must never come out and the real inputs must be merged as usual.
 //	mode=reusenil        the same with nil channels
+//	mode=dup             the first input appears twice in the argument list
+//	mode=bg              an unrelated Join on an open input is alive for the whole run (not counted by the census)
 //
 // The environment keeps sending on / closing the REAL inputs (`ins`); the moves and the observations are the ones of
 // stage=Join, so the Lean oracle (`oracle lockstep`, which ignores `mode` for Join) checks them unchanged.
@@ -20,6 +22,7 @@ package lockstep
 import (
 	"context"
 	"runtime"
+	"testing/synctest"
 
 	"github.com/fogfish/golem/pipe/v2"
 )
@@ -29,6 +32,33 @@ const foreignMark = 900000
 func init() {
 	special["Join"] = func(ctx context.Context, e *env) ([]chan int, []outp) {
 		c := e.c
+		if c.mode == "dup" && c.k >= 1 {
+			// the same channel appears twice in the argument list: Join(ctx, in0, in0, in1, …). Two copiers share in0; every
+			// element still comes out exactly once and the output closes once all inputs are closed and drained.
+			ins := make([]chan int, c.k)
+			arg := []<-chan int{}
+			for i := range ins {
+				cp := c.cap
+				if i < len(c.caps) {
+					cp = c.caps[i]
+				}
+				ins[i] = make(chan int, cp)
+				arg = append(arg, ins[i])
+				if i == 0 {
+					arg = append(arg, ins[i])
+				}
+			}
+			return ins, []outp{outInt(pipe.Join(ctx, arg...))}
+		}
+		if c.mode == "bg" {
+			// another, unrelated Join is alive (its input stays open until the end of the run): this Join must not wait for it
+			other := make(chan int)
+			bg := pipe.Join(context.Background(), other)
+			synctest.Wait()
+			e.baseline = census()
+			e.teardown = append(e.teardown, func() { close(other); for range bg { } })
+			return build(ctx, e)
+		}
 		if c.mode != "reuse" && c.mode != "reusenil" {
 			return build(ctx, e)
 		}
